@@ -252,7 +252,10 @@ def patch_listener_module():
         options = 0
 
         def load_cert_chain(self, *a, **k):
-            pass
+            w = _CUR['world']
+            if w is not None and w.fail_cert:
+                w.fail_cert = False
+                raise OSError(2, 'No such file or directory (certificate; injected by the harness)')
 
         def wrap_socket(self, sock, *a, **k):
             return sock
@@ -337,7 +340,15 @@ class FakeServer:
         w = _CUR['world']
         self.kind = 'https' if (w.https_port is not None and port == w.https_port) else 'http'
         self.sfx = '2' if self.kind == 'https' else ''
-        _park('mkserver' + self.sfx)
+        cmd = _park('mkserver' + self.sfx)
+        if cmd == 'fail' or (cmd == 'failc' and self.kind == 'http'):
+            import errno
+            w.injected += 1
+            raise OSError(errno.EADDRINUSE, 'Address already in use (injected by the harness)')
+        if cmd == 'failc':
+            w.injected += 1
+            w.fail_cert = True              # the certificate loading for this server will fail
+            w.unstarted = self
         self.accepting = True
         self.closed = False
         self.listener = None
@@ -356,6 +367,11 @@ class FakeServer:
 
     def server_close(self):
         w = _CUR['world']
+        if w.unstarted is self:             # created, never started serving: nothing to wait for
+            w.unstarted = None
+            self.accepting = False
+            self.closed = True
+            return
         w.closing = self
         _park('server_close' + self.sfx)
         import pywbem._listener as L
@@ -450,6 +466,9 @@ class World:
         self.sched = Sched()
         self.servers = []
         self.join_has_timeout = False
+        self.injected = 0                       # server creations the harness made fail
+        self.fail_cert = False
+        self.unstarted = None
         self.cur = {}                           # kind -> the server object created last
         self.closing = None
         self.https_port = (51000 + os.getpid() % 10000) if cfg.get('https') else None
@@ -633,7 +652,14 @@ class World:
         return True
 
     def next_call(self):
-        return self.calls[len(self.outcomes)]
+        """next API call in free-running mode; the use of the API stays legal whatever happened before (after a
+        divergence the listener may be up where the label list assumed a failed start, or the other way round)"""
+        c = self.calls[len(self.outcomes)]
+        up = bool(self.outcomes) and self.outcomes[-1] == ('start', None)
+        if c == 'start' and up:
+            self.calls.insert(len(self.outcomes), 'stop')
+            return 'stop'
+        return c
 
 
 def j_of(name):
@@ -641,7 +667,7 @@ def j_of(name):
 
 
 def label_thread(l):
-    if l in ('start', 'stop', 'main'):
+    if l in ('start', 'stop', 'main', 'fail', 'failc'):
         return 'main'
     if l.startswith('cb'):
         return 'cb'
@@ -657,6 +683,7 @@ def real_walk(w, res, walk):
     s = w.sched
     rng = random.Random(walk['seed'])
     up, starts, last = False, walk['starts'], None
+    fails = walk.get('fails', 0)
     for _ in range(walk['maxlen']):
         cands = []
         mt = s.ts['main']
@@ -667,6 +694,8 @@ def real_walk(w, res, walk):
                 cands.append('stop')
         elif w.enabled('main'):
             cands.append('main')
+            if fails > 0 and mt.tag in ('mkserver', 'mkserver2') and rng.randrange(3) == 0:
+                cands.append('failc' if (mt.tag == 'mkserver2' and rng.randrange(2)) else 'fail')
         ct = s.ts.get('cb')
         if ct is not None and not ct.done:
             cands.append('cb')
@@ -695,6 +724,10 @@ def real_walk(w, res, walk):
             cmd = l
         elif l == 'cb!':
             cmd = 'raise'
+        elif l in ('fail', 'failc'):
+            cmd = l
+            fails -= 1
+            up = False
         elif l.startswith('t'):
             cmd = 'tls'
         last = label_thread(l)
@@ -718,6 +751,8 @@ def run_real(cfg, labels, pcs, extra_calls=('start', 'stop'), walk=None):
             continue
         if l in ('start', 'stop'):
             up = (l == 'start')
+        if l in ('fail', 'failc'):
+            up = False
         legal.append(l)
     if labels is not None and len(legal) != len(labels):
         labels, pcs = legal, None
@@ -745,7 +780,10 @@ def run_real(cfg, labels, pcs, extra_calls=('start', 'stop'), walk=None):
                 if name == 'main' and ((l in ('start', 'stop')) != (t.tag == 'idle')):
                     res['diverged'] = {'step': i, 'label': l, 'why': 'main is at %s' % t.tag, 'real': w.vector()}
                     break
-                if l in ('start', 'stop'):
+                if l in ('fail', 'failc') and t.tag not in ('mkserver', 'mkserver2'):
+                    res['diverged'] = {'step': i, 'label': l, 'why': 'main is at %s' % t.tag, 'real': w.vector()}
+                    break
+                if l in ('start', 'stop', 'fail', 'failc'):
                     cmd = l
                 elif l == 'cb!':
                     cmd = 'raise'
@@ -806,7 +844,7 @@ def run_real(cfg, labels, pcs, extra_calls=('start', 'stop'), walk=None):
             'stuck_senders': [j for j in range(w.n) if w.in_handler[j] is not None],
             'put_seen': [[list(a), b] for a, b in w.put_seen],
             'full_log': list(w.full_log),
-            'regs': list(w.regs), 'registered': list(w.registered),
+            'regs': list(w.regs), 'registered': list(w.registered), 'injected': w.injected,
             'notes': list(w.notes),
             'final_vector': w.vector(),
         })
@@ -829,8 +867,14 @@ def oracle(cfg, obs):
     """list of (sig, detail): violations of C16 visible in the observation of one real run"""
     out = []
     ncb = cfg['ncb']
+    documented = [i for i, (call, exc) in enumerate(obs['outcomes'])
+                  if call == 'start' and exc in ('ListenerPortError', 'ListenerStartError', 'ListenerCertificateError')]
+    if len(documented) != obs.get('injected', 0):
+        out.append(({'kind': 'start-failure-mismatch'}, '%d server creations were made to fail, start() raised a '
+                    'ListenerError %d times' % (obs.get('injected', 0), len(documented))))
+        documented = []
     for idx, (call, exc) in enumerate(obs['outcomes']):
-        if exc is not None:
+        if exc is not None and idx not in documented:
             out.append(({'kind': 'api-exception', 'call': call, 'exc': exc,
                          'phase': 'schedule' if idx < obs['n_model_calls'] else 'restart-probe'},
                         'call #%d %s() raised %s' % (idx, call, exc)))
@@ -842,15 +886,16 @@ def oracle(cfg, obs):
                         obs['main_tag'], 'polling without progress' if obs.get('livelock') else
                         'every other thread has ended or is blocked', len(obs['outcomes']), obs['n_calls'])))
     for idx, ((call, exc), snap) in enumerate(zip(obs['outcomes'], obs['after_call'])):
-        if call == 'stop' and exc is None:
+        if (call == 'stop' and exc is None) or idx in documented:
+            call = 'stop' if call == 'stop' else 'failed start'
             if snap['cb_alive']:
                 out.append(({'kind': 'thread-left-behind', 'what': 'callback thread'},
-                            'stop() #%d returned while the callback thread is alive' % idx))
+                            '%s #%d returned while the callback thread is alive' % (call, idx)))
             if snap['server_open'] or snap['server_threads']:
-                out.append(({'kind': 'port-left-behind'}, 'stop() #%d returned with an open server' % idx))
+                out.append(({'kind': 'port-left-behind'}, '%s #%d returned with an open server' % (call, idx)))
             if snap.get('started_flags'):
                 out.append(({'kind': 'started-flag-left', 'server': ','.join(snap['started_flags'])},
-                            'stop() #%d returned with %s_started still True' % (idx, '/'.join(snap['started_flags']))))
+                            '%s #%d returned with %s_started still True' % (call, idx, '/'.join(snap['started_flags']))))
     acked, refused, other = [], [], []
     for j, rs in enumerate(obs['responses']):
         for seq, (kind, code) in enumerate(rs):
@@ -928,6 +973,9 @@ def cfg_json(cfg):
             'http': bool(cfg.get('http', True)), 'https': bool(cfg.get('https', False))}
 
 
+DOCUMENTED = ('ListenerPortError', 'ListenerStartError', 'ListenerCertificateError')
+
+
 def model_view(final):
     """the model's final state in the shape of the real observation"""
     n = len(final['nexts'])
@@ -937,15 +985,16 @@ def model_view(final):
     for (j, q) in final['refused']:
         resp[j][q] = 'err'
     return {'log': [list(x) for x in final['log']], 'responses': resp, 'errs': final['errs'],
-            'fullLog': list(final.get('fullLog', []))}
+            'fullLog': list(final.get('fullLog', [])), 'startFails': final.get('startFails', 0)}
 
 
 def real_view(obs):
     nm = obs['n_model_calls']
     return {'log': obs['log'],
             'responses': [[r[0] for r in rs] for rs in obs['responses']],
-            'errs': [e for (_, e) in obs['outcomes'][:nm] if e is not None],
-            'fullLog': obs.get('full_log', [])}
+            'errs': [e for (_, e) in obs['outcomes'][:nm] if e is not None and e not in DOCUMENTED],
+            'fullLog': obs.get('full_log', []),
+            'startFails': sum(1 for (_, e) in obs['outcomes'][:nm] if e in DOCUMENTED)}
 
 
 def work(item):
@@ -980,6 +1029,7 @@ def gen_real_walks(rng, n, thorough=False, https=False):
         with_regs(cfg, rng)
         out.append((cfg, {'seed': rng.randrange(1 << 60), 'maxlen': rng.choice([30, 60, 100, 160]),
                           'perSender': rng.choice([1, 2, 3, 4]), 'starts': rng.choice([1, 1, 2, 3]),
+                          'fails': rng.choice([0, 1, 1, 2]) if https else rng.choice([0, 0, 1]),
                           'sticky': rng.choice([0, 40, 70, 90])}))
     return out
 
@@ -1001,7 +1051,9 @@ def judge_walk(run, cfg, walk, obs, model):
             bad = next((i for i, (a, b) in enumerate(zip(obs['vectors'], model['pcs'])) if a != b), None)
             mv = model_view(model['final'])
             rv = {'log': obs['log'], 'responses': [[r[0] for r in rs] for rs in obs['responses']],
-                  'errs': [e for (_, e) in obs['outcomes'] if e is not None], 'fullLog': obs.get('full_log', [])}
+                  'errs': [e for (_, e) in obs['outcomes'] if e is not None and e not in DOCUMENTED],
+                  'fullLog': obs.get('full_log', []),
+                  'startFails': sum(1 for (_, e) in obs['outcomes'] if e in DOCUMENTED)}
             if bad is not None:
                 run.disagree(case, model['pcs'][bad], {'step': bad, 'real': obs['vectors'][bad]},
                              'position vector on a real-driven schedule')
@@ -1061,8 +1113,18 @@ def walk_requests(run, n):
                            'maxlen': rng.choice([25, 40, 60, 90, 140]),
                            'perSender': rng.choice([1, 2, 3, 3, 5 if thorough else 3]),
                            'starts': rng.choice([1, 1, 2, 3]), 'extraStops': rng.choice([0, 0, 1]),
+                           'fails': rng.choice([0, 0, 1, 2]),
                            'sticky': rng.choice([0, 30, 60, 85])}))
     return reqs
+
+
+def cert_variant(labels, pcs, rng):
+    """a failing creation of the HTTPS server is, half of the time, a certificate failure (same model step)"""
+    out = list(labels)
+    for i, l in enumerate(out):
+        if l == 'fail' and i > 0 and pcs[i - 1].startswith('mkserver2') and rng.randrange(2):
+            out[i] = 'failc'
+    return out
 
 
 def schedule_batches(run):
@@ -1105,7 +1167,7 @@ def schedule_batches(run):
             if 'stuck' in a:
                 run.disagree({'cfg': cfg}, a, None, 'model walk produced a label that is not enabled')
             else:
-                out.append((cfg, a['labels'], a['pcs'], a['final'], 'walk'))
+                out.append((cfg, cert_variant(a['labels'], a['pcs'], run.rng), a['pcs'], a['final'], 'walk'))
         yield out
 
 
@@ -1183,6 +1245,8 @@ def stats(run, cfg, labels, final, obs, origin):
         run.count('with-refusal')
     if 'cb!' in labels:
         run.count('with-raising-callback')
+    if 'fail' in labels or 'failc' in labels:
+        run.count('with-failing-start')
     # stop() called while an indication is in flight or queued: the window of the old defect
     hot = False
     for l, p in zip(labels, [None] + obs.get('_pcs', [])[:-1]):
@@ -1205,7 +1269,7 @@ def _register_module():
         sys.modules[__name__] = m
 
 
-EXPECTED_FACTS = {'joinWithoutTimeout': True, 'dedupByEquality': True, 'putNonBlocking': True, 'handlerThreadsJoined': True, 'clearAfterJoin': True,
+EXPECTED_FACTS = {'startFailureLikeStop': True, 'joinWithoutTimeout': True, 'dedupByEquality': True, 'putNonBlocking': True, 'handlerThreadsJoined': True, 'clearAfterJoin': True,
                   'localQueueRef': True, 'callbackExceptionCaught': True, 'queueFullStatus': 1,
                   'stopOrder': ['_stop_listener_threads', '_stop_indication_delivery']}
 
@@ -1412,6 +1476,7 @@ SMOKE = [  # (callback seconds, indications, seconds before stop, maxq, ncb)
     (0.0, 5, 0.0, 0, 2),
     (0.05, 6, 0.0, 2, 1),      # bounded queue: some refused
     ('failed-start', 0, 0.0, 0, 1),   # start() failing after the HTTP server thread was started
+    ('failed-start-busy', 0, 0.0, 0, 1),   # HTTPS port in use while indications keep arriving over HTTP
     ('ports', 'both', 0.0, 0, 2),     # HTTP and HTTPS: start, indications over both, stop, restart, stop
     ('ports', 'https', 0.0, 0, 1),
     ('ports', 'http', 0.0, 0, 1),
@@ -1638,10 +1703,78 @@ def smoke_failed_start():
     return res
 
 
+def smoke_failed_start_busy():
+    """start() fails because the HTTPS port is in use while a sender keeps posting indications to the HTTP port,
+    which is already serving: start() must raise its documented error, leave nothing behind, and every indication
+    that was acknowledged must have been delivered (once)"""
+    import pywbem
+    quiet_logging()
+    p1, p2 = free_port(), free_port()
+    blocker = socket.socket()
+    blocker.bind(('127.0.0.1', p2))
+    blocker.listen(1)
+    li = pywbem.WBEMListener('127.0.0.1', http_port=p1, https_port=p2, certfile='x.pem', keyfile='x.pem')
+    li.queue_get_timeout = 0.2
+    log, acked, problems, outcomes = [], [], [], []
+    li.add_callback(lambda ind, host: log.append((0, int(ind['Sender']), int(ind['Seq']))))
+    before = set(threading.enumerate())
+    halt = []
+
+    def sender():
+        q = 0
+        t_end = time.time() + 20
+        while not halt and time.time() < t_end:
+            try:
+                r = _post(p1, 0, q, False)
+            except OSError:
+                time.sleep(0.002)
+                continue
+            if r[0] == 'ok':
+                acked.append((0, q))
+            q += 1
+    th = threading.Thread(target=sender, daemon=True)
+    th.start()
+    before.add(th)
+    try:
+        li.start()
+        outcomes.append(('start', None))
+        problems.append(({'kind': 'start-failure-mismatch', 'what': 'loopback'}, 'start() succeeded with the HTTPS port in use'))
+    except pywbem.ListenerError:
+        outcomes.append(('start', None))
+    except Exception as e:                                   # noqa
+        outcomes.append(('start', type(e).__name__))
+        problems.append(({'kind': 'api-exception', 'call': 'start', 'exc': type(e).__name__, 'phase': 'loopback'},
+                         'failing start() raised %r' % (e,)))
+    left = sorted(t.name for t in set(threading.enumerate()) - before if t.is_alive())
+    time.sleep(0.2)
+    halt.append(1)
+    th.join(30)
+    blocker.close()
+    if left:
+        problems.append(({'kind': 'thread-left-behind', 'what': 'loopback'}, 'threads alive after the failed start(): %s' % left))
+    if _listening(p1):
+        problems.append(({'kind': 'port-left-behind', 'what': 'loopback'}, 'HTTP port still accepts after the failed start()'))
+    seen = [(j, q) for (_, j, q) in log]
+    lost = [x for x in acked if x not in seen]
+    if lost:
+        problems.append(({'kind': 'acked-not-delivered', 'callback': 0, 'what': 'loopback'},
+                         'start() failed: %d of %d acknowledged indications never delivered, first %s' % (
+                             len(lost), len(acked), lost[0])))
+    if len(seen) != len(set(seen)):
+        problems.append(({'kind': 'delivered-twice', 'callback': 0, 'what': 'loopback'}, 'failed start()'))
+    try:
+        li.stop()
+    except Exception:                                        # noqa
+        pass
+    return {'problems': problems, 'outcomes': outcomes, 'log': log[:20], 'responses': [('ok', None)] * min(len(acked), 20)}
+
+
 def _smoke_child(conn, args):
     try:
         if args[0] == 'failed-start':
             conn.send(('ok', smoke_failed_start()))
+        elif args[0] == 'failed-start-busy':
+            conn.send(('ok', smoke_failed_start_busy()))
         elif args[0] == 'ports':
             conn.send(('ok', smoke_ports(args[1], args[4])))
         else:
@@ -1676,7 +1809,7 @@ def smoke_guarded(args, timeout=60.0):
 
 def smoke(run):
     t0 = time.time()
-    for i, (d, n, w, mq, ncb) in enumerate(SMOKE if run.thorough else SMOKE[:7]):
+    for i, (d, n, w, mq, ncb) in enumerate(SMOKE if run.thorough else SMOKE[:8]):
         case = {'loopback': [d, n, w, mq, ncb]}
         kind, res = smoke_guarded((d, n, w, mq, ncb))
         if kind == 'exc':
